@@ -425,4 +425,257 @@ theorem readGml_ok_inv {u : Bool} {ty : GType} {text : Str} {G : AnyG} {nm : Fie
         subst hty; subst e
         exact (hne g rfl rfl).elim
 
+/-! ### `BipartiteGraph.from_networkx` on an arbitrary parsed graph -/
+
+/-- one edge of the loop of `BipartiteGraph.from_networkx`: which `add_edge` call it makes -/
+def bipCall (L R : List Nat) (e : Nat × Nat) : Option (Nat × Nat) :=
+  let ucolor := !(L.contains e.1)
+  let vcolor := R.contains e.2
+  if ucolor == vcolor then none
+  else if !ucolor then some (rank L e.1, rank R e.2)
+  else some (rank L e.2, rank R e.1)
+
+theorem bip_fold_spec (L R : List Nat) : ∀ (es : List (Nat × Nat)) (g0 g : BipG), BipG.Inv g0 →
+    es.foldlM (fun g e =>
+        let ucolor := !(L.contains e.1)
+        let vcolor := R.contains e.2
+        if ucolor == vcolor then Except.error Err.valueError
+        else if !ucolor then g.addEdge (rank L e.1 : Nat) (rank R e.2 : Nat)
+        else g.addEdge (rank L e.2 : Nat) (rank R e.1 : Nat)) g0 = .ok g →
+    BipG.Inv g ∧ g.l = g0.l ∧ g.r = g0.r ∧
+      (∀ e ∈ es, ∃ c, bipCall L R e = some c ∧ 1 ≤ c.1 ∧ c.1 ≤ g0.l ∧ 1 ≤ c.2 ∧ c.2 ≤ g0.r) ∧
+      ∀ p, p ∈ g.edgeset ↔ (p ∈ g0.edgeset ∨ ∃ e ∈ es, bipCall L R e = some p) := by
+  intro es
+  induction es with
+  | nil =>
+    intro g0 g hI h
+    simp only [List.foldlM_nil] at h
+    cases h
+    exact ⟨hI, rfl, rfl, by simp, by simp⟩
+  | cons e es ih =>
+    intro g0 g hI h
+    simp only [List.foldlM_cons] at h
+    by_cases hc : (!(L.contains e.1)) == R.contains e.2
+    · simp only [hc, if_true] at h
+      cases h
+    · simp only [hc, Bool.false_eq_true, if_false] at h
+      -- the call made for `e`
+      have hcall : ∃ c, bipCall L R e = some c ∧
+          (if (!(!(L.contains e.1))) = true then g0.addEdge (rank L e.1 : Nat) (rank R e.2 : Nat)
+            else g0.addEdge (rank L e.2 : Nat) (rank R e.1 : Nat)) = g0.addEdge (c.1 : Nat) (c.2 : Nat) := by
+        unfold bipCall
+        simp only [hc, Bool.false_eq_true, if_false]
+        split
+        · exact ⟨_, rfl, rfl⟩
+        · exact ⟨_, rfl, rfl⟩
+      obtain ⟨c, hc1, hc2⟩ := hcall
+      rw [hc2] at h
+      cases ha : g0.addEdge (c.1 : Nat) (c.2 : Nat) with
+      | error x => rw [ha] at h; cases h
+      | ok g1 =>
+        rw [ha] at h
+        obtain ⟨hv, hI1, hl1, hr1, hE1⟩ := BipG.addEdge_ok hI ha
+        obtain ⟨hI2, hl2, hr2, hall, hE2⟩ := ih g1 g hI1 (by simpa only [bind, Except.bind] using h)
+        refine ⟨hI2, by rw [hl2, hl1], by rw [hr2, hr1], ?_, ?_⟩
+        · intro x hx
+          rcases List.mem_cons.1 hx with rfl | hx
+          · unfold BipG.Valid at hv
+            exact ⟨c, hc1, by omega, by omega, by omega, by omega⟩
+          · obtain ⟨c', h1, h2, h3, h4, h5⟩ := hall x hx
+            exact ⟨c', h1, h2, by omega, h4, by omega⟩
+        · intro p
+          rw [hE2, hE1]
+          simp only [Int.toNat_natCast, List.mem_cons, exists_eq_or_imp]
+          constructor
+          · rintro ((h1 | h1) | h1)
+            · exact Or.inl h1
+            · exact Or.inr (Or.inl (by rw [hc1, h1]))
+            · exact Or.inr (Or.inr h1)
+          · rintro (h1 | h1 | h1)
+            · exact Or.inl (Or.inl h1)
+            · rw [hc1] at h1; injection h1 with h1; exact Or.inl (Or.inr h1.symm)
+            · exact Or.inr h1
+
+/-- the positions on one side, in the order of the file -/
+def Parsed.side (P : Parsed) (b : Bool) : List Nat :=
+  (((List.range P.labels.length).zip (P.colours.map colourBool)).filter (fun p => p.2 == some b)).map (·.1)
+
+/-- type `bipartite`: an accepted text gives every node a side (`0 1 "0" "1"`); the two sides are numbered
+separately in the order of the file; every edge of the text joins the two sides and is an edge of the object
+(in either orientation of `source` / `target`), and there are no other edges -/
+theorem normalize_bip_spec {P : Parsed} (hP : P.WF) {G : AnyG} (h : normalize .bipartite P = .ok G) :
+    ∃ g, G = .bip g ∧ BipG.Inv g ∧ g.l = (P.side false).length ∧ g.r = (P.side true).length ∧
+      (∀ c ∈ P.colours.map colourBool, c ≠ none) ∧
+      ∀ p, p ∈ g.edgeset ↔
+        ∃ e ∈ nxEdges P.directed P.labels.length P.tedges, bipCall (P.side false) (P.side true) e = some p := by
+  simp only [normalize] at h
+  split at h
+  · cases h
+  · cases hb : bipOfNx ((List.range P.labels.length).zip (P.colours.map colourBool))
+        (nxEdges P.directed P.labels.length P.tedges) with
+    | error e => rw [hb] at h; cases h
+    | ok g =>
+      rw [hb] at h
+      simp only [liftE, Res.bind] at h
+      cases h
+      unfold bipOfNx at hb
+      split at hb
+      · cases hb
+      · rename_i hnone
+        obtain ⟨h1, h2, h3, _, h5⟩ := bip_fold_spec (P.side false) (P.side true) _ _ g (BipG.inv_init _ _) hb
+        refine ⟨g, rfl, h1, by rw [h2]; rfl, by rw [h3]; rfl, ?_, ?_⟩
+        · intro c hc hcn
+          apply hnone
+          rw [List.any_eq_true]
+          obtain ⟨k, hk, hk2⟩ := List.mem_iff_getElem.1 hc
+          have hkc : k < P.colours.length := by simpa using hk
+          have hk' : k < (List.range P.labels.length).length := by
+            rw [List.length_range, ← hP.colours]; exact hkc
+          refine ⟨((List.range P.labels.length)[k], (P.colours.map colourBool)[k]), ?_, by rw [hk2, hcn]; rfl⟩
+          rw [List.mem_iff_getElem]
+          exact ⟨k, by rw [List.length_zip]; omega, by rw [List.getElem_zip]⟩
+        · intro p
+          rw [h5]
+          simp [BipG.init]
+
+theorem mem_zip_range {β} {n : Nat} {cols : List β} {i : Nat} {c : β} (h : (i, c) ∈ (List.range n).zip cols) :
+    cols[i]? = some c := by
+  obtain ⟨k, hk, hk2⟩ := List.mem_iff_getElem.1 h
+  rw [List.getElem_zip] at hk2
+  injection hk2 with h1 h2
+  rw [List.getElem_range] at h1
+  subst h1
+  rw [← h2]
+  rw [List.length_zip] at hk
+  exact List.getElem?_eq_getElem (by omega)
+
+theorem mem_side {P : Parsed} {b : Bool} {i : Nat} :
+    i ∈ P.side b → (P.colours.map colourBool)[i]? = some (some b) := by
+  intro h
+  simp only [Parsed.side, List.mem_map, List.mem_filter, beq_iff_eq] at h
+  obtain ⟨⟨j, c⟩, ⟨hm, hc⟩, rfl⟩ := h
+  simp only at hc
+  subst hc
+  exact mem_zip_range hm
+
+theorem side_disjoint {P : Parsed} {i : Nat} (h1 : i ∈ P.side false) (h2 : i ∈ P.side true) : False := by
+  have a := mem_side h1
+  have b := mem_side h2
+  rw [a] at b
+  cases b
+
+theorem rank_le_iff {L : List Nat} {i : Nat} : rank L i ≤ L.length ↔ i ∈ L := by
+  simp only [rank]
+  constructor
+  · intro h
+    exact List.idxOf_lt_length_iff.1 (by omega)
+  · intro h
+    have := List.idxOf_lt_length_iff.2 h
+    omega
+
+/-- `normalize_bip_spec` in terms of the edges of the text -/
+theorem normalize_bip_edges {P : Parsed} (hP : P.WF) {G : AnyG} (h : normalize .bipartite P = .ok G) :
+    ∃ g, G = .bip g ∧ BipG.Inv g ∧ g.l = (P.side false).length ∧ g.r = (P.side true).length ∧
+      (∀ c ∈ P.colours.map colourBool, c ≠ none) ∧
+      (∀ e ∈ P.tedges, (e.1 ∈ P.side false ∧ e.2 ∈ P.side true) ∨ (e.2 ∈ P.side false ∧ e.1 ∈ P.side true)) ∧
+      ∀ x y, (x, y) ∈ g.edgeset ↔ ∃ i j, ((i, j) ∈ P.tedges ∨ (j, i) ∈ P.tedges) ∧ i ∈ P.side false ∧ j ∈ P.side true ∧
+        x = rank (P.side false) i ∧ y = rank (P.side true) j := by
+  -- redo the fold to keep the validity of every call
+  have h0 := h
+  simp only [normalize] at h0
+  split at h0
+  · cases h0
+  · cases hb : bipOfNx ((List.range P.labels.length).zip (P.colours.map colourBool))
+        (nxEdges P.directed P.labels.length P.tedges) with
+    | error e => rw [hb] at h0; cases h0
+    | ok g0 =>
+      obtain ⟨g, hg, hI, hl, hr, hcol, hE⟩ := normalize_bip_spec hP h
+      rw [hb] at h0
+      simp only [liftE, Res.bind] at h0
+      cases h0
+      cases hg
+      unfold bipOfNx at hb
+      split at hb
+      · cases hb
+      · obtain ⟨_, h2, h3, hvalid, _⟩ := bip_fold_spec (P.side false) (P.side true) _ _ g0 (BipG.inv_init _ _) hb
+        have hl0 : (BipG.init (P.side false).length (P.side true).length).l = (P.side false).length := rfl
+        have hr0 : (BipG.init (P.side false).length (P.side true).length).r = (P.side true).length := rfl
+        -- what a successful call says about an edge networkx reports
+        have hcase : ∀ e ∈ nxEdges P.directed P.labels.length P.tedges, ∀ p, bipCall (P.side false) (P.side true) e = some p →
+            (e.1 ∈ P.side false ∧ e.2 ∈ P.side true ∧ p = (rank (P.side false) e.1, rank (P.side true) e.2)) ∨
+            (e.2 ∈ P.side false ∧ e.1 ∈ P.side true ∧ p = (rank (P.side false) e.2, rank (P.side true) e.1)) := by
+          intro e he p hp
+          obtain ⟨c, hc, v1, v2, v3, v4⟩ := hvalid e he
+          rw [hp] at hc
+          injection hc with hc
+          subst hc
+          have v2 : p.1 ≤ (P.side false).length := v2
+          have v4 : p.2 ≤ (P.side true).length := v4
+          unfold bipCall at hp
+          simp only at hp
+          split at hp
+          · cases hp
+          · split at hp
+            · injection hp with hp
+              subst hp
+              exact Or.inl ⟨rank_le_iff.1 v2, rank_le_iff.1 v4, rfl⟩
+            · injection hp with hp
+              subst hp
+              exact Or.inr ⟨rank_le_iff.1 v2, rank_le_iff.1 v4, rfl⟩
+        -- membership in what networkx reports, whatever the orientation
+        have hmem : ∀ i j, ((i, j) ∈ nxEdges P.directed P.labels.length P.tedges ∨
+            (j, i) ∈ nxEdges P.directed P.labels.length P.tedges) ↔ ((i, j) ∈ P.tedges ∨ (j, i) ∈ P.tedges) := by
+          intro i j
+          have hW : (NxG.mk P.labels.length P.tedges).WF := hP.ends
+          cases hd : P.directed
+          · rw [nxEdges_false, NxG.mem_edges, NxG.mem_edges]
+            constructor
+            · rintro (⟨_, _, h⟩ | ⟨_, _, h⟩)
+              · exact h
+              · exact h.symm
+            · intro h
+              have hr : i < P.labels.length ∧ j < P.labels.length := by
+                rcases h with h | h
+                · exact hP.ends _ h
+                · exact (hP.ends _ h).symm
+              rcases Nat.le_total i j with hle | hle
+              · exact Or.inl ⟨hr.1, hle, h⟩
+              · exact Or.inr ⟨hr.2, hle, h.symm⟩
+          · rw [nxEdges_true, mem_diEdges, mem_diEdges]
+            constructor
+            · rintro (⟨_, h⟩ | ⟨_, h⟩)
+              · exact Or.inl h
+              · exact Or.inr h
+            · rintro (h | h)
+              · exact Or.inl ⟨(hP.ends _ h).1, h⟩
+              · exact Or.inr ⟨(hP.ends _ h).1, h⟩
+        refine ⟨g0, rfl, hI, hl, hr, hcol, ?_, ?_⟩
+        · intro e he
+          rcases (hmem e.1 e.2).2 (Or.inl he) with h | h
+          · obtain ⟨c, hc, _⟩ := hvalid _ h
+            rcases hcase _ h c hc with ⟨a, b, _⟩ | ⟨a, b, _⟩
+            · exact Or.inl ⟨a, b⟩
+            · exact Or.inr ⟨a, b⟩
+          · obtain ⟨c, hc, _⟩ := hvalid _ h
+            rcases hcase _ h c hc with ⟨a, b, _⟩ | ⟨a, b, _⟩
+            · exact Or.inr ⟨a, b⟩
+            · exact Or.inl ⟨a, b⟩
+        · intro x y
+          rw [hE]
+          constructor
+          · rintro ⟨e, he, hp⟩
+            rcases hcase e he _ hp with ⟨a, b, hxy⟩ | ⟨a, b, hxy⟩
+            · injection hxy with hx hy
+              exact ⟨e.1, e.2, (hmem _ _).1 (Or.inl he), a, b, hx, hy⟩
+            · injection hxy with hx hy
+              exact ⟨e.2, e.1, (hmem _ _).1 (Or.inr he), a, b, hx, hy⟩
+          · rintro ⟨i, j, hij, hi, hj, rfl, rfl⟩
+            have hiR : i ∉ P.side true := fun h => side_disjoint hi h
+            have hjL : j ∉ P.side false := fun h => side_disjoint h hj
+            rcases (hmem i j).2 hij with h | h
+            · refine ⟨(i, j), h, ?_⟩
+              simp [bipCall, hi, hj]
+            · refine ⟨(j, i), h, ?_⟩
+              simp [bipCall, hjL, hiR]
+
 end Cnfgen.Gml
